@@ -2,11 +2,11 @@ package main
 
 import (
 	"fmt"
-	"sync"
 	"go/token"
 	"go/types"
 	"sort"
 	"strings"
+	"sync"
 
 	"golang.org/x/tools/go/ssa"
 	"golang.org/x/tools/go/ssa/ssautil"
